@@ -1237,9 +1237,24 @@ def revised_calendar_items(rules=("TSLACK",)):
     return out
 
 
+def looked_at_items(rules=("TSLACK",)):
+    """runs stopped at step k, looked at through every read-only helper (queries without filter, chart data builders, printing), and continued"""
+    out = []
+    models = [with_teams(fl, "TWOTEAM") for fl in list(flows(3, ("FS", "SS", "FF"), (2, 3)))[::61]] + [with_teams(fl, "MIX") for fl in list(flows(2, KINDS4, (1.5, 3)))[::5]]
+    models += auto_component_specs()[::3] + list(fac_specs("quick"))[::19] + nested_running_specs()[-2:] + [oven_spec(3.0)]
+    for sp in models:
+        for k in (1, 2, 3):
+            for rule in rules[:1]:
+                out.append((sp, {"rule": rule, "resume_from": k, "pause_queries": True, "max_time": seq_bound(sp) + 12}))
+        out.append((sp, {"rule": rules[0], "resume_from": 2, "pause_queries": True, "absence": [1, 3], "max_time": seq_bound(sp) + 14}))
+        out.append((sp, {"rule": rules[0], "presim_queries": True, "max_time": seq_bound(sp) + 12}))  # ... and looked at before the very first run
+    return out
+
+
 def extra_items(rules=("TSLACK",), calendars=True):
-    """round 13: other ways of building the object graph, and continuations planned with another calendar / flag than the part before the stop"""
-    return usage_items(rules) + (revised_calendar_items(rules) if calendars else [])
+    """round 13: other ways of building the object graph, and continuations planned with another calendar / flag than the part before the stop;
+    round 15: runs looked at through every read-only helper at a stop"""
+    return usage_items(rules) + looked_at_items(rules) + (revised_calendar_items(rules) if calendars else [])
 
 
 def stuck_component_specs():
@@ -1284,4 +1299,23 @@ def half_wired_workplace_specs():
                     "teams": [{"name": "TM0", "targets": [0, 1, 2, 3], "workers": [{"name": "w", "skills": {"T0": 1.0, "H": 1.0, "L": 1.0}, "fskills": {"F1": 1.0, "F2": 1.0}, "cost": 1.0},
                                                                                   {"name": "v", "skills": {"X": 1.0}, "fskills": {"F1": 1.0}, "cost": 1.0}]}],
                     "label": "half-wired-workplace:%s:%s" % (hw, lw)})
+    return out
+
+
+def stationed_worker_specs():
+    """workers stationed at a workplace (main_workplace_id) under the default MW worker rule: (a) a skilled, licensed worker of a team that is NOT assigned to the
+    machine task is stationed at the machine's workplace, the assigned team's worker is not; (b) an unskilled inspector is stationed there, the turner visits"""
+    out = []
+    for mainwp_a in (None, "WP0"):
+        out.append({"tasks": [{"name": "T", "work": 3.0, "nf": True}, {"name": "U", "work": 2.0}], "links": [], "components": [{"name": "C0", "tasks": [0]}],
+                    "workplaces": [{"name": "WP0", "cap": 1.0, "targets": [0], "facilities": [{"name": "F0", "skills": {"T": 1.0}, "cost": 1.0}]}],
+                    "teams": [{"name": "TA", "targets": [0], "workers": [{"name": "a1", "skills": {"T": 1.0}, "fskills": {"F0": 1.0}, "mainwp": mainwp_a, "cost": 1.0}]},
+                              {"name": "TB", "targets": [1], "workers": [{"name": "b1", "skills": {"T": 1.0, "U": 1.0}, "fskills": {"F0": 1.0}, "mainwp": "WP0", "cost": 1.0}]}],
+                    "label": "stationed:foreign-team-worker-at-the-machine:%s" % mainwp_a})
+    for mainwp_b in (None, "elsewhere"):
+        out.append({"tasks": [{"name": "turning", "work": 3.0, "nf": True}, {"name": "inspect", "work": 1.0}], "links": [[0, 1, "FS"]], "components": [{"name": "C0", "tasks": [0]}],
+                    "workplaces": [{"name": "shop", "cap": 1.0, "targets": [0], "facilities": [{"name": "lathe", "skills": {"turning": 1.0}, "cost": 1.0}]}],
+                    "teams": [{"name": "TM0", "targets": [0, 1], "workers": [{"name": "ann", "skills": {"inspect": 1.0}, "mainwp": "shop", "cost": 1.0},
+                                                                          {"name": "bob", "skills": {"turning": 1.0}, "fskills": {"lathe": 1.0}, "mainwp": mainwp_b, "cost": 1.0}]}],
+                    "label": "stationed:inspector-at-the-shop-turner-visiting:%s" % mainwp_b})
     return out
